@@ -213,3 +213,22 @@ Example C01_source_invert_is_model : _ := g_tl_invert_eq.
 Print Assumptions C01_source_invert_is_model.
 Example C01_source_flatten_is_model : _ := g_flatten_eq.
 Print Assumptions C01_source_flatten_is_model.
+(* ---- tie C (third extension, tag filt): the operator dispatch of Timeline as the code has it — which node
+   class `a | b`, `a & b`, `a & f`, `a - b`, `~a` build (constructors and _flatten_sources translated), and
+   the mask flags the intersection's emit selection reads ---- *)
+From CG Require Import Proofs.GenEq_filt2.
+
+Theorem C01_source_or_and_dispatch : forall a (other : expr + filt),
+  g_timeline_or ctor_union a other = match other with inl b => RDone (or_ a b) | inr _ => RRaise Loop.TypeError end /\
+  g_timeline_and ctor_filtered ctor_inter a other = match other with inl b => and_ a b | inr f => Filt a f end.
+Proof. intros a other. split; [apply g_timeline_or_eq | apply g_timeline_and_eq]. Qed.
+Print Assumptions C01_source_or_and_dispatch.
+
+Theorem C01_source_sub_invert_dispatch : forall a b,
+  g_timeline_sub ctor_diff a b = sub_ a b /\ g_timeline_invert ctor_compl a = inv_ a.
+Proof. intros a b. split; [apply g_timeline_sub_eq | apply g_timeline_invert_eq]. Qed.
+Print Assumptions C01_source_sub_invert_dispatch.
+
+Theorem C01_source_is_mask : forall e, is_mask e = src_is_mask e.
+Proof. exact is_mask_is_source. Qed.
+Print Assumptions C01_source_is_mask.
